@@ -94,6 +94,12 @@ int __wrap_poll (struct pollfd *f, nfds_t n, int t) {
 	if (in_lib && r == 0 && poll_late_eintr > 0) { poll_late_eintr--; errno = EINTR; return -1; }
 	return r;
 }
+/* resolver results: obtained with getaddrinfo, to be released with freeaddrinfo (recorded in the ledger's set of stream-like handles) */
+#include <netdb.h>
+int __real_getaddrinfo (const char *, const char *, const struct addrinfo *, struct addrinfo **);
+int __wrap_getaddrinfo (const char *n, const char *sv, const struct addrinfo *h, struct addrinfo **res) { int r = __real_getaddrinfo (n, sv, h, res); if (in_lib && r == 0 && res && *res) vt_emit ("{\"e\":\"file_open\",\"id\":%ld,\"by\":\"getaddrinfo\"}", ptr_id (*res)); return r; }
+void __real_freeaddrinfo (struct addrinfo *);
+void __wrap_freeaddrinfo (struct addrinfo *a) { if (in_lib && a) vt_emit ("{\"e\":\"file_close\",\"id\":%ld,\"by\":\"freeaddrinfo\"}", ptr_id (a)); __real_freeaddrinfo (a); }
 static int getsockname_fail;
 int __real_getsockname (int, struct sockaddr *, socklen_t *);
 int __wrap_getsockname (int fd, struct sockaddr *a, socklen_t *l) { if (in_lib && getsockname_fail > 0) { getsockname_fail--; errno = ENOBUFS; return -1; } return __real_getsockname (fd, a, l); }
@@ -120,7 +126,7 @@ static int acquire (const char *k, int want_ok, Obj *o) {
 	else if (!strcmp (k, "hash")) { PCryptoHash *h = p_crypto_hash_new (want_ok ? P_CRYPTO_HASH_TYPE_SHA3_256 : (PCryptoHashType) 99); pchar *s; if (h) { p_crypto_hash_update (h, (const puchar *) "x", 1); s = p_crypto_hash_get_string (h); p_free (s); } o->a = h; ok = h != NULL; }
 	else if (!strcmp (k, "error")) { PError *e = p_error_new_literal (1, 2, "m"), *c = p_error_copy (e); p_error_set_message (c, "longer message"); p_error_free (e); o->a = c; ok = c != NULL; }
 	else if (!strcmp (k, "dir")) { PDir *d; PDirEntry *en; snprintf (path, sizeof path, "%s%s", tmpdir, want_ok ? "" : "/no_such_dir"); d = p_dir_new (path, &err); if (d) { while ((en = p_dir_get_next_entry (d, NULL)) != NULL) p_dir_entry_free (en); p_dir_rewind (d, NULL); } o->a = d; ok = d != NULL; }
-	else if (!strcmp (k, "sockaddr")) { PSocketAddress *a = p_socket_address_new (want_ok ? "::1" : "not an address", 5); pchar *s; if (a) { s = p_socket_address_get_address (a); p_free (s); } o->a = a; ok = a != NULL; }
+	else if (!strcmp (k, "sockaddr")) { PSocketAddress *a = p_socket_address_new (want_ok ? (uniq % 2 ? "::1" : "fe80::1%lo") : (uniq % 2 ? "not an address" : "::zz"), 5); pchar *s; if (a) { s = p_socket_address_get_address (a); p_free (s); } o->a = a; ok = a != NULL; }
 	else if (!strcmp (k, "tcp")) {          /* listener + client + accepted; fail: connect to a port nobody listens on */
 		PSocket *l = p_socket_new (P_SOCKET_FAMILY_INET, P_SOCKET_TYPE_STREAM, P_SOCKET_PROTOCOL_TCP, NULL), *c = p_socket_new (P_SOCKET_FAMILY_INET, P_SOCKET_TYPE_STREAM, P_SOCKET_PROTOCOL_TCP, NULL), *s = NULL;
 		PSocketAddress *a = loop0 (), *la; char buf[8];
